@@ -226,9 +226,21 @@ func c15R6(c *Ctx) {
 			okB = true
 		}
 	}
-	for _, ci := range f.CallsTo(cfgx.Named("builtin:copy")) {
-		if callArg(ci, 1) == "a0.votes" && strings.HasPrefix(callArg(ci, 0), "make([]*gemmill/types.Vote,len(a0.votes))") {
-			okP = true
+	copyIn := func(g *cfgx.Fn) bool {
+		for _, ci := range g.CallsTo(cfgx.Named("builtin:copy")) {
+			if callArg(ci, 1) == "a0.votes" && strings.HasPrefix(callArg(ci, 0), "make([]*gemmill/types.Vote,len(a0.votes))") {
+				return true
+			}
+		}
+		return false
+	}
+	okP = copyIn(f)
+	if !okP {
+		// the copy may live in a helper method called on the same receiver
+		for _, ci := range f.Calls() {
+			if callee := ci.Common().StaticCallee(); callee != nil && callee.Blocks != nil && len(ci.Common().Args) == 1 && callArg(ci, 0) == "a0" && copyIn(c.Fn(callee)) {
+				okP = true
+			}
 		}
 	}
 	c.R.Ob(rule, "MakeCommit:BlockID=*maj23", okB, c.P.Pos(f.F.Pos()), fname(f), "commit block id must be the majority's")
